@@ -384,9 +384,9 @@ impl<'a, 'p> Gen<'a, 'p> {
         self.budget = body_budget.min(saved.max(1));
         let (mut body, bst) = if self.p.join_in_loop_quarters > 0 && self.ch.flag(self.p.join_in_loop_quarters, 4) && st.bound <= 400 {
             // a body whose join inputs differ in every round
-            let kind = [JoinKind::Inner, JoinKind::Left, JoinKind::Outer][self.ch.weighted(&[1, 2, 3])];
+            let kind = [JoinKind::Inner, JoinKind::Left, JoinKind::Outer][self.ch.weighted(&[1, 2, 4])];
             let algo = [JoinAlgo::Shortcut, JoinAlgo::HashHash, JoinAlgo::HashSortMerge, JoinAlgo::BcHash, JoinAlgo::BcSortMerge, JoinAlgo::Keyed]
-                [self.ch.weighted(&[1, 2, 4, 1, 2, 1])];
+                [self.ch.weighted(&[1, 2, 5, 1, 3, 1])];
             let k = [3i64, 7, 16, 64][self.ch.below(4)];
             let m = [3i64, 5, 8][self.ch.below(3)];
             let (l, r) = if self.ch.flag(1, 2) {
